@@ -1,16 +1,41 @@
 import Gaftools.Props.C15
 import Gaftools.Model.Hist
+import Gaftools.Proofs.HistLemmas
 /-!
 # C15 (continued) — loaded graphs are undirected; edit histories
 -/
 namespace Gaftools.C15
 open Gaftools.Gfa Gaftools.Algo Gaftools.Spec.Graph Gaftools.Hist
+open Gaftools.Proofs.Gfa Gaftools.Proofs.Hist
 
 /-! ## the neighbour relation of a loaded graph is undirected -/
 
 theorem readGraph_undirected (t : GfaFile) (hu : (t.segs.map (·.id)).Nodup) (lm : Bool) :
     Undirected (Graph.nbFun (readGraph t lm)) (Graph.ids (readGraph t lm)) := by
-  sorry
+  have _ := hu
+  have hids : ∀ a, a ∈ Graph.ids (readGraph t lm) ↔ (readGraph t lm).has a = true := fun a =>
+    (has_iff_mem (readGraph t lm) a).symm
+  refine ⟨?_, ?_, ?_⟩
+  · intro a b hb
+    simp only [Graph.nbFun, mem_neighbors] at hb ⊢
+    obtain ⟨s, sm, ov, hx⟩ := hb
+    rw [mem_adj_readGraph] at hx
+    obtain ⟨l, hl, ha, hb, hc⟩ := hx
+    refine ⟨sm, s, ov, ?_⟩
+    rw [mem_adj_readGraph]
+    exact ⟨l, hl, ha, hb, (Contrib_symm l a s b sm ov).mp hc⟩
+  · intro a _ b hb
+    simp only [Graph.nbFun, mem_neighbors] at hb
+    obtain ⟨s, sm, ov, hx⟩ := hb
+    rw [mem_adj_readGraph] at hx
+    obtain ⟨l, _, ha, hb, hc⟩ := hx
+    rw [hids, has_readGraph]
+    rcases Contrib_ends hc with ⟨_, h2⟩ | ⟨_, h2⟩
+    · simp only at h2; rw [h2]; exact hb
+    · simp only at h2; rw [h2]; exact ha
+  · intro a ha
+    rw [hids] at ha
+    exact neighbors_of_not_has _ a (by simpa using ha)
 
 /-! ## edit histories -/
 
@@ -19,17 +44,34 @@ theorem readGraph_undirected (t : GfaFile) (hu : (t.segs.map (·.id)).Nodup) (lm
 theorem history_eq_build (ops : List Op) :
     Graph.ids (applyOps ops) = Graph.ids (build (survivors ops)) ∧
     ∀ id side e, e ∈ (applyOps ops).adj id side ↔ e ∈ (build (survivors ops)).adj id side := by
-  sorry
+  have h := inv_history ops
+  constructor
+  · show Gaftools.Proofs.Gfa.ids (applyOps ops) = Gaftools.Proofs.Gfa.ids (build (survivors ops))
+    rw [h.ids_eq, ids_build _ h.nodup]
+  · intro id side e
+    rw [h.adj, mem_adj_build]
+    constructor
+    · rintro ⟨l, hl, hc⟩
+      exact ⟨l, hl, (h.closed l hl).1, (h.closed l hl).2, hc⟩
+    · rintro ⟨l, hl, _, _, hc⟩
+      exact ⟨l, hl, hc⟩
 
 /-- adjacency stays symmetric between the two ends of every link -/
 theorem history_symmetric (ops : List Op) (n : String) (s : Bool) (m : String) (sm : Bool) (ov : Nat) :
-    (m, sm, ov) ∈ (applyOps ops).adj n s ↔ (n, s, ov) ∈ (applyOps ops).adj m sm := by
-  sorry
+    (m, sm, ov) ∈ (applyOps ops).adj n s ↔ (n, s, ov) ∈ (applyOps ops).adj m sm :=
+  have h := (inv_history ops).sym
+  ⟨h n s m sm ov, h m sm n s ov⟩
 
 /-- nothing refers to a deleted node -/
 theorem history_no_dangling (ops : List Op) (n : String) (s : Bool) (e : Adj) (h : e ∈ (applyOps ops).adj n s) :
     (applyOps ops).has e.1 = true ∧ (applyOps ops).has n = true := by
-  sorry
+  have hi := inv_history ops
+  obtain ⟨l, hl, hc⟩ := (hi.adj n s e).mp h
+  have hcl := hi.closed l hl
+  rw [has_iff_mem, has_iff_mem, hi.ids_eq]
+  rcases Contrib_ends hc with ⟨h1, h2⟩ | ⟨h1, h2⟩
+  · rw [h1, h2]; exact ⟨hcl.2, hcl.1⟩
+  · rw [h1, h2]; exact ⟨hcl.1, hcl.2⟩
 
 /-! non-vacuity: the hypotheses are met by every loaded graph (`readGraph_undirected`), e.g. a triangle with a pendant node
 and an isolated node; the values computed by the model for it are printed by `#eval` in `Gaftools/Props/C15Eval.lean`. -/
